@@ -28,32 +28,988 @@ Proof.
   repeat split; lia.
 Qed.
 
+Lemma mod256_64 x : (x mod 256) mod 64 = x mod 64.
+Proof. lia. Qed.
+
+(** base-64 digits of a word *)
+Lemma split_word w :
+  w = 64 * (w / 2 ^ 6) + w mod 64 /\
+  w / 2 ^ 6 = 64 * (w / 2 ^ 12) + (w / 2 ^ 6) mod 64 /\
+  w / 2 ^ 12 = 64 * (w / 2 ^ 18) + (w / 2 ^ 12) mod 64 /\
+  w / 2 ^ 18 = 64 * (w / 2 ^ 24) + (w / 2 ^ 18) mod 64 /\
+  w / 2 ^ 24 = 64 * (w / 2 ^ 30) + (w / 2 ^ 24) mod 64.
+Proof.
+  change (2 ^ 30) with (2 ^ 24 * 64). change (2 ^ 24) with (2 ^ 18 * 64).
+  change (2 ^ 18) with (2 ^ 12 * 64). change (2 ^ 12) with (2 ^ 6 * 64).
+  rewrite <- !N.div_div by discriminate.
+  change (2 ^ 6) with 64.
+  repeat split; apply N.div_mod'.
+Qed.
+
+Lemma meta_decode_alt w : w < 2 ^ 32 ->
+  meta_decode w = {| curr_inf := w / 2 ^ 30; curr_hf := (w / 2 ^ 24) mod 64;
+                     seg0 := (w / 2 ^ 12) mod 64; seg1 := (w / 2 ^ 6) mod 64; seg2 := w mod 64 |}.
+Proof.
+  intros H. unfold meta_decode, u8. rewrite !mod256_64. f_equal.
+  apply N.mod_small. pows. lia.
+Qed.
+
+Ltac digits_of w :=
+  let H := fresh in
+  pose proof (split_word w) as H;
+  pose proof (N.mod_lt w 64 ltac:(discriminate));
+  pose proof (N.mod_lt (w / 2 ^ 6) 64 ltac:(discriminate));
+  pose proof (N.mod_lt (w / 2 ^ 12) 64 ltac:(discriminate));
+  pose proof (N.mod_lt (w / 2 ^ 18) 64 ltac:(discriminate));
+  pose proof (N.mod_lt (w / 2 ^ 24) 64 ltac:(discriminate));
+  generalize dependent (w mod 64); intros ?d0;
+  generalize dependent ((w / 2 ^ 6) mod 64); intros ?d1;
+  generalize dependent ((w / 2 ^ 12) mod 64); intros ?d2;
+  generalize dependent ((w / 2 ^ 18) mod 64); intros ?d3;
+  generalize dependent ((w / 2 ^ 24) mod 64); intros ?d4;
+  generalize dependent (w / 2 ^ 6); intros ?a1;
+  generalize dependent (w / 2 ^ 12); intros ?a2;
+  generalize dependent (w / 2 ^ 18); intros ?a3;
+  generalize dependent (w / 2 ^ 24); intros ?a4;
+  generalize dependent (w / 2 ^ 30); intros ?a5.
+
 Lemma meta_decode_fields w : w < 2 ^ 32 ->
   let m := meta_decode w in
   w = curr_inf m * 2 ^ 30 + curr_hf m * 2 ^ 24 + ((w / 2 ^ 18) mod 64) * 2 ^ 18
       + seg0 m * 2 ^ 12 + seg1 m * 2 ^ 6 + seg2 m.
 Proof.
-  intros H. unfold meta_decode, u8; cbn [curr_inf curr_hf seg0 seg1 seg2]. pows. lia.
+  intros H. cbv zeta. rewrite meta_decode_alt by exact H. cbn [curr_inf curr_hf seg0 seg1 seg2].
+  digits_of w. intros. pows. lia.
 Qed.
 
 Lemma meta_decode_encode m : wf_meta m -> meta_decode (meta_encode m) = m.
 Proof.
   destruct m as [ci ch s0 s1 s2]. unfold wf_meta, meta_decode, meta_encode, u8, u32.
   cbn [curr_inf curr_hf seg0 seg1 seg2]. pows. intros (H1 & H2 & H3 & H4 & H5).
-  f_equal; lia.
-Qed.
-
-Lemma meta_encode_decode w : w < 2 ^ 32 ->
-  meta_encode (meta_decode w) + ((w / 2 ^ 18) mod 64) * 2 ^ 18 = w.
-Proof.
-  intros H. unfold meta_decode, meta_encode, u8, u32; cbn [curr_inf curr_hf seg0 seg1 seg2]. pows. lia.
+  rewrite !mod256_64.
+  rewrite (N.mod_small (ci * _)) by lia. rewrite (N.mod_small ch), (N.mod_small s0), (N.mod_small s1),
+    (N.mod_small s2) by assumption.
+  set (W := ci * 1073741824 + ch * 16777216 + s0 * 4096 + s1 * 64 + s2).
+  assert (E5 : W / 1073741824 = ci).
+  { symmetry. apply (N.div_unique _ _ _ (ch * 16777216 + s0 * 4096 + s1 * 64 + s2)); unfold W; lia. }
+  assert (E4 : W / 16777216 = ci * 64 + ch).
+  { symmetry. apply (N.div_unique _ _ _ (s0 * 4096 + s1 * 64 + s2)); unfold W; lia. }
+  assert (E2 : W / 4096 = (ci * 64 + ch) * 4096 + s0).
+  { symmetry. apply (N.div_unique _ _ _ (s1 * 64 + s2)); unfold W; lia. }
+  assert (E1 : W / 64 = ((ci * 64 + ch) * 4096 + s0) * 64 + s1).
+  { symmetry. apply (N.div_unique _ _ _ s2); unfold W; lia. }
+  rewrite E5, E4, E2, E1. f_equal.
+  - apply N.mod_small; lia.
+  - symmetry. apply (N.mod_unique _ _ ci); lia.
+  - symmetry. apply (N.mod_unique _ _ ((ci * 64 + ch) * 64)); lia.
+  - symmetry. apply (N.mod_unique _ _ ((ci * 64 + ch) * 4096 + s0)); lia.
+  - symmetry. apply (N.mod_unique _ _ (((ci * 64 + ch) * 4096 + s0) * 64 + s1)); unfold W; lia.
 Qed.
 
 (** what SerializeTo writes for arbitrary uint8 field values: the fields truncated to their widths *)
 Lemma meta_encode_trunc m :
   meta_encode m = (curr_inf m mod 4) * 2 ^ 30 + (curr_hf m mod 64) * 2 ^ 24
                   + (seg0 m mod 64) * 2 ^ 12 + (seg1 m mod 64) * 2 ^ 6 + seg2 m mod 64.
-Proof. unfold meta_encode, u32. pows. lia. Qed.
+Proof.
+  unfold meta_encode, u32. do 4 f_equal. pows.
+  generalize (curr_inf m); intros c. lia.
+Qed.
 
 Lemma meta_encode_lt m : meta_encode m < 2 ^ 32.
-Proof. rewrite meta_encode_trunc. pows. lia. Qed.
+Proof.
+  rewrite meta_encode_trunc.
+  pose proof (N.mod_lt (curr_inf m) 4 ltac:(discriminate)).
+  pose proof (N.mod_lt (curr_hf m) 64 ltac:(discriminate)).
+  pose proof (N.mod_lt (seg0 m) 64 ltac:(discriminate)).
+  pose proof (N.mod_lt (seg1 m) 64 ltac:(discriminate)).
+  pose proof (N.mod_lt (seg2 m) 64 ltac:(discriminate)).
+  generalize dependent (curr_inf m mod 4). generalize dependent (curr_hf m mod 64).
+  generalize dependent (seg0 m mod 64). generalize dependent (seg1 m mod 64).
+  generalize dependent (seg2 m mod 64). intros. pows. lia.
+Qed.
+
+Lemma meta_encode_decode w : w < 2 ^ 32 ->
+  meta_encode (meta_decode w) + ((w / 2 ^ 18) mod 64) * 2 ^ 18 = w.
+Proof.
+  intros H. rewrite meta_encode_trunc, meta_decode_alt by exact H.
+  cbn [curr_inf curr_hf seg0 seg1 seg2]. rewrite !N.mod_mod by discriminate.
+  assert (L : w / 2 ^ 30 < 4) by (apply N.div_lt_upper_bound; [discriminate | exact H]).
+  rewrite (N.mod_small _ 4) by exact L.
+  digits_of w. intros. pows. lia.
+Qed.
+
+(** ------------------------------------------------------------------
+    Base.DecodeFromBytes *)
+Lemma ltb0 x : (0 <? x) = negb (x =? 0).
+Proof. lia. Qed.
+
+Definition decoded_base (m : meta) : base :=
+  {| pm := m; num_inf := count_nonzero m; num_hops := seg0 m + seg1 m + seg2 m |}.
+
+Lemma base_decode_spec m :
+  base_decode m = if shape_ok m then Some (decoded_base m) else None.
+Proof.
+  destruct m as [ci ch a b c].
+  unfold base_decode, shape_ok, decoded_base, count_nonzero, dec_step, max_hops.
+  cbn [fold_left seglen seg0 seg1 seg2].
+  destruct a as [|a]; destruct b as [|b]; destruct c as [|c]; cbn; try reflexivity;
+    rewrite N.ltb_antisym;
+    try replace (b + a)%positive with (a + b)%positive by lia;
+    try replace (c + b + a)%positive with (a + b + c)%positive by lia;
+    match goal with |- context [?x <=? 64] => destruct (x <=? 64) end; reflexivity.
+Qed.
+
+Lemma base_decode_accept_iff m :
+  (exists b, base_decode m = Some b) <-> shape_ok m = true.
+Proof.
+  rewrite base_decode_spec. destruct (shape_ok m); split; intros H; try reflexivity; eauto.
+  - destruct H as [b H]. discriminate.
+  - discriminate.
+Qed.
+
+Lemma base_decode_some m b : base_decode m = Some b -> shape_ok m = true /\ b = decoded_base m.
+Proof.
+  rewrite base_decode_spec. destruct (shape_ok m); intros H; [|discriminate].
+  inversion H. split; reflexivity.
+Qed.
+
+Lemma shape_ok_prop m :
+  shape_ok m = true <->
+  (seg1 m = 0 -> seg2 m = 0) /\ (seg0 m = 0 -> seg1 m = 0) /\ seg0 m + seg1 m + seg2 m <= 64.
+Proof. unfold shape_ok. lia. Qed.
+
+(** ------------------------------------------------------------------
+    The layout list *)
+Lemma nth_error_repeat {A} (x : A) k n : (n < k)%nat -> nth_error (repeat x k) n = Some x.
+Proof.
+  revert n; induction k as [|k IH]; intros n H; [lia|].
+  destruct n; cbn; [reflexivity|]. apply IH. lia.
+Qed.
+
+Lemma nth_error_3 {A} (x y z : A) a b c n :
+  nth_error (repeat x a ++ repeat y b ++ repeat z c) n =
+  if (n <? a)%nat then Some x else if (n <? a + b)%nat then Some y
+  else if (n <? a + b + c)%nat then Some z else None.
+Proof.
+  destruct (Nat.ltb_spec n a).
+  - rewrite nth_error_app1 by (rewrite repeat_length; lia). now apply nth_error_repeat.
+  - rewrite nth_error_app2 by (rewrite repeat_length; lia). rewrite repeat_length.
+    destruct (Nat.ltb_spec n (a + b)).
+    + rewrite nth_error_app1 by (rewrite repeat_length; lia). apply nth_error_repeat. lia.
+    + rewrite nth_error_app2 by (rewrite repeat_length; lia). rewrite repeat_length.
+      destruct (Nat.ltb_spec n (a + b + c)).
+      * apply nth_error_repeat. lia.
+      * apply nth_error_None. rewrite repeat_length. lia.
+Qed.
+
+Lemma seg_at_arith m hf :
+  seg_at m hf = if hf <? seg0 m then Some 0 else if hf <? seg0 m + seg1 m then Some 1
+                else if hf <? seg0 m + seg1 m + seg2 m then Some 2 else None.
+Proof.
+  unfold seg_at, seg_map. rewrite nth_error_3.
+  destruct (Nat.ltb_spec (N.to_nat hf) (N.to_nat (seg0 m))); destruct (N.ltb_spec hf (seg0 m)); try lia;
+    [reflexivity|].
+  destruct (Nat.ltb_spec (N.to_nat hf) (N.to_nat (seg0 m) + N.to_nat (seg1 m)));
+    destruct (N.ltb_spec hf (seg0 m + seg1 m)); try lia; [reflexivity|].
+  destruct (Nat.ltb_spec (N.to_nat hf) (N.to_nat (seg0 m) + N.to_nat (seg1 m) + N.to_nat (seg2 m)));
+    destruct (N.ltb_spec hf (seg0 m + seg1 m + seg2 m)); try lia; reflexivity.
+Qed.
+
+Lemma seg_map_length m : N.of_nat (length (seg_map m)) = seg0 m + seg1 m + seg2 m.
+Proof. unfold seg_map. rewrite !app_length, !repeat_length. lia. Qed.
+
+(** [infIndexForHF] on an accepted shape: the segment the layout assigns to the hop; 2 beyond the path *)
+Lemma inf_index_arith m hf : seg0 m + seg1 m <= 64 ->
+  inf_index_for_hf m hf = if hf <? seg0 m then 0 else if hf <? seg0 m + seg1 m then 1 else 2.
+Proof. intros H. unfold inf_index_for_hf, u8. rewrite (N.mod_small (seg0 m + seg1 m)) by lia. reflexivity. Qed.
+
+Lemma inf_index_seg_at m hf : shape_ok m = true -> hf < seg0 m + seg1 m + seg2 m ->
+  seg_at m hf = Some (inf_index_for_hf m hf).
+Proof.
+  intros S H. apply shape_ok_prop in S. rewrite seg_at_arith, inf_index_arith by lia.
+  destruct (N.ltb_spec hf (seg0 m)); [reflexivity|].
+  destruct (N.ltb_spec hf (seg0 m + seg1 m)); [reflexivity|].
+  destruct (N.ltb_spec hf (seg0 m + seg1 m + seg2 m)); [reflexivity|lia].
+Qed.
+
+Lemma seg_at_lt m hf k : seg_at m hf = Some k -> hf < seg0 m + seg1 m + seg2 m /\ k < 3.
+Proof.
+  rewrite seg_at_arith.
+  destruct (N.ltb_spec hf (seg0 m)); [intros E; inversion E; lia|].
+  destruct (N.ltb_spec hf (seg0 m + seg1 m)); [intros E; inversion E; lia|].
+  destruct (N.ltb_spec hf (seg0 m + seg1 m + seg2 m)); [intros E; inversion E; lia|discriminate].
+Qed.
+
+(** ------------------------------------------------------------------
+    Pointer arithmetic on an accepted shape (a, b, c) *)
+Ltac bdestr :=
+  repeat match goal with
+  | |- context [N.ltb ?x ?y] => destruct (N.ltb_spec x y)
+  | |- context [N.leb ?x ?y] => destruct (N.leb_spec x y)
+  | |- context [N.eqb ?x ?y] => destruct (N.eqb_spec x y)
+  end.
+
+Section Shape.
+Variables a b c : N.
+Definition mk (ci ch : N) : meta := {| curr_inf := ci; curr_hf := ch; seg0 := a; seg1 := b; seg2 := c |}.
+Hypothesis SOK : shape_ok (mk 0 0) = true.
+Let tot := a + b + c.
+Definition B (ci ch : N) : base := decoded_base (mk ci ch).
+
+Lemma S' : (b = 0 -> c = 0) /\ (a = 0 -> b = 0) /\ a + b + c <= 64.
+Proof. pose proof SOK as X. apply shape_ok_prop in X. exact X. Qed.
+
+Lemma B_with ci ch ci' ch' : base_with_ptrs (B ci ch) ci' ch' = B ci' ch'.
+Proof. reflexivity. Qed.
+
+Lemma seg_at_mk ci ch hf :
+  seg_at (mk ci ch) hf = if hf <? a then Some 0 else if hf <? a + b then Some 1
+                         else if hf <? a + b + c then Some 2 else None.
+Proof. apply seg_at_arith. Qed.
+
+Lemma idx_mk ci ch hf :
+  inf_index_for_hf (mk ci ch) hf = if hf <? a then 0 else if hf <? a + b then 1 else 2.
+Proof. apply inf_index_arith. cbn [seg0 seg1 mk]. pose proof S'. lia. Qed.
+
+Lemma seg_at_idx ci ch hf : hf < tot -> seg_at (mk ci ch) hf = Some (inf_index_for_hf (mk ci ch) hf).
+Proof. intros H. rewrite seg_at_mk, idx_mk. unfold tot in H. bdestr; try reflexivity; lia. Qed.
+
+Lemma seg_at_none ci ch hf : tot <= hf -> seg_at (mk ci ch) hf = None.
+Proof. intros H. rewrite seg_at_mk. unfold tot in H. bdestr; try reflexivity; lia. Qed.
+
+Lemma match_spec ci ch : ch < tot ->
+  curr_inf_matches (B ci ch) = opt_eqb (seg_at (mk ci ch) ch) (Some ci).
+Proof.
+  intros H. rewrite (seg_at_idx _ _ _ H). unfold curr_inf_matches, opt_eqb, option_eqb.
+  cbn [B decoded_base pm curr_inf curr_hf mk]. apply N.eqb_sym.
+Qed.
+
+Lemma last_spec ci ch : is_last_hop (B ci ch) = (ch + 1 =? tot).
+Proof. reflexivity. Qed.
+
+Lemma xover_spec ci ch : ch < tot ->
+  is_xover (B ci ch) =
+  match seg_at (mk ci ch) (ch + 1) with Some k => negb (k =? ci) | None => false end.
+Proof.
+  intros H. pose proof S' as (_ & _ & L). fold tot in L.
+  unfold is_xover, u8. cbn [B decoded_base pm curr_inf curr_hf mk num_hops seg0 seg1 seg2]. fold tot.
+  rewrite (N.mod_small (ch + 1)), (N.mod_small tot) by lia.
+  destruct (N.ltb_spec (ch + 1) tot) as [H1|H1]; cbn [andb].
+  - rewrite (seg_at_idx _ _ _ H1). cbn [mk]. now rewrite N.eqb_sym.
+  - now rewrite seg_at_none.
+Qed.
+
+Lemma first_spec ci ch : seg_at (mk ci ch) ch = Some ci ->
+  is_first_hop_after_xover (B ci ch) =
+  if ch =? 0 then false
+  else match seg_at (mk ci ch) (ch - 1) with Some k => negb (k =? ci) | None => false end.
+Proof.
+  intros V. pose proof S' as (S1 & S2 & L).
+  unfold is_first_hop_after_xover. cbn [B decoded_base pm curr_inf curr_hf mk].
+  rewrite idx_mk. rewrite seg_at_mk in V. rewrite seg_at_mk.
+  destruct (N.eqb_spec ch 0) as [->|Hc]; [now rewrite andb_false_r|].
+  revert V. bdestr; intros V; inversion V; subst; cbn; try reflexivity; try lia.
+Qed.
+
+Lemma inc_mid ci ch : ch + 1 < tot ->
+  inc_path (B ci ch) = (B (inf_index_for_hf (mk ci ch) (ch + 1)) (ch + 1), IncOk).
+Proof.
+  intros H. pose proof S' as (S1 & S2 & L). fold tot in L.
+  unfold inc_path, u8. cbn [B decoded_base pm curr_inf curr_hf mk num_hops num_inf seg0 seg1 seg2]. fold tot.
+  assert (N0 : count_nonzero (mk ci ch) <> 0).
+  { unfold count_nonzero, tot in *. cbn [mk seg0 seg1 seg2]. bdestr; lia. }
+  destruct (N.eqb_spec (count_nonzero (mk ci ch)) 0); [contradiction|].
+  destruct (N.leb_spec tot (ch + 1)); [lia|].
+  rewrite (N.mod_small (ch + 1)) by lia. reflexivity.
+Qed.
+
+Lemma inc_last ci ch : ch + 1 = tot -> inc_path (B ci ch) = (B ci ch, IncEnd).
+Proof.
+  intros H. pose proof S' as (S1 & S2 & L). fold tot in L.
+  unfold inc_path, u8. cbn [B decoded_base pm curr_inf curr_hf mk num_hops num_inf seg0 seg1 seg2]. fold tot.
+  assert (N0 : count_nonzero (mk ci ch) <> 0).
+  { unfold count_nonzero, tot in *. cbn [mk seg0 seg1 seg2]. bdestr; lia. }
+  destruct (N.eqb_spec (count_nonzero (mk ci ch)) 0); [contradiction|].
+  destruct (N.leb_spec tot (ch + 1)); [|lia].
+  replace ((tot + 255) mod 256) with ch by lia. reflexivity.
+Qed.
+
+Lemma inc_empty ci ch : tot = 0 -> inc_path (B ci ch) = (B ci ch, IncEmpty).
+Proof.
+  intros H. unfold inc_path. cbn [B decoded_base pm num_inf].
+  assert (N0 : count_nonzero (mk ci ch) = 0).
+  { unfold count_nonzero, tot in *. cbn [mk seg0 seg1 seg2]. bdestr; lia. }
+  rewrite N0. reflexivity.
+Qed.
+
+(** beyond the last hop IncPath fails and parks CurrHF on the last hop *)
+Lemma inc_beyond ci ch : 0 < tot -> tot <= ch + 1 -> inc_path (B ci ch) = (B ci (tot - 1), IncEnd).
+Proof.
+  intros H0 H. pose proof S' as (S1 & S2 & L). fold tot in L.
+  unfold inc_path, u8. cbn [B decoded_base pm curr_inf curr_hf mk num_hops num_inf seg0 seg1 seg2]. fold tot.
+  assert (N0 : count_nonzero (mk ci ch) <> 0).
+  { unfold count_nonzero, tot in *. cbn [mk seg0 seg1 seg2]. bdestr; lia. }
+  destruct (N.eqb_spec (count_nonzero (mk ci ch)) 0); [contradiction|].
+  destruct (N.leb_spec tot (ch + 1)); [|lia].
+  replace ((tot + 255) mod 256) with (tot - 1) by lia. reflexivity.
+Qed.
+
+(** segment boundaries in numbers *)
+Definition seg_start (k : N) : N := match k with 0 => 0 | 1 => a | _ => a + b end.
+Definition seg_end (k : N) : N := match k with 0 => a | 1 => a + b | _ => a + b + c end.
+
+Lemma valid_iff ci ch :
+  seg_at (mk ci ch) ch = Some ci <-> ci < 3 /\ seg_start ci <= ch < seg_end ci.
+Proof.
+  rewrite seg_at_mk. unfold seg_start, seg_end. split.
+  - bdestr; intros E; inversion E; subst; cbn; lia.
+  - intros (H1 & H2). destruct ci as [|[[]|[]|]]; cbn in *; try lia; bdestr; try reflexivity; lia.
+Qed.
+
+Lemma xover_boundary ci ch : seg_at (mk ci ch) ch = Some ci ->
+  is_xover (B ci ch) = true <-> ch + 1 = seg_end ci /\ ch + 1 < tot.
+Proof.
+  intros V. pose proof S' as (S1 & S2 & L). pose proof V as V'. apply valid_iff in V' as (V1 & V2).
+  rewrite xover_spec by (unfold tot; destruct ci as [|[[]|[]|]]; cbn in *; lia).
+  rewrite seg_at_mk. unfold tot.
+  destruct ci as [|[[]|[]|]]; cbn in *; try lia; bdestr; cbn; split; intros; try lia; try discriminate.
+Qed.
+
+Lemma first_boundary ci ch : seg_at (mk ci ch) ch = Some ci ->
+  is_first_hop_after_xover (B ci ch) = true <-> 0 < ci /\ ch = seg_start ci.
+Proof.
+  intros V. pose proof S' as (S1 & S2 & L). pose proof V as V'. apply valid_iff in V' as (V1 & V2).
+  rewrite first_spec by exact V. rewrite seg_at_mk.
+  destruct ci as [|[[]|[]|]]; cbn in *; try lia; bdestr; cbn; split; intros; try lia; try discriminate.
+Qed.
+
+(** IncPath at a cross-over moves to the next segment, otherwise stays *)
+Lemma inc_segment ci ch : seg_at (mk ci ch) ch = Some ci -> ch + 1 < tot ->
+  inf_index_for_hf (mk ci ch) (ch + 1) = if is_xover (B ci ch) then ci + 1 else ci.
+Proof.
+  intros V H. pose proof S' as (S1 & S2 & L). pose proof V as V'. apply valid_iff in V' as (V1 & V2).
+  rewrite xover_spec by lia. rewrite seg_at_mk, idx_mk. unfold tot in *.
+  destruct ci as [|[[]|[]|]]; cbn in *; try lia; bdestr; cbn; try reflexivity; try lia.
+Qed.
+
+(** the walk *)
+Lemma skipn_nth {A} (l : list A) n x : nth_error l n = Some x -> skipn n l = x :: skipn (S n) l.
+Proof.
+  revert n; induction l as [|y t IH]; intros [|n] H; cbn in *; try discriminate.
+  - now inversion H.
+  - now apply IH.
+Qed.
+
+Lemma walk_from fuel : forall ch, ch < tot -> (N.to_nat (tot - ch) <= fuel)%nat ->
+  walk fuel (B (inf_index_for_hf (mk 0 0) ch) ch) = skipn (N.to_nat ch) (seg_map (mk 0 0)).
+Proof.
+  induction fuel as [|fuel IH]; intros ch H F; [lia|].
+  cbn [walk]. cbn [B decoded_base pm curr_inf mk].
+  pose proof (seg_at_idx 0 0 ch H) as E. unfold seg_at in E.
+  rewrite (skipn_nth _ _ _ E). f_equal.
+  destruct (N.eq_dec (ch + 1) tot) as [L|L].
+  - change (decoded_base (mk ?x ?y)) with (B x y). rewrite inc_last by exact L.
+    symmetry. apply skipn_all2.
+    pose proof (seg_map_length (mk 0 0)) as SL. cbn [mk seg0 seg1 seg2] in SL. fold tot in SL. lia.
+  - change (decoded_base (mk ?x ?y)) with (B x y). rewrite inc_mid by lia.
+    change (inf_index_for_hf (mk ?x ?y) (ch + 1)) with (inf_index_for_hf (mk 0 0) (ch + 1)).
+    rewrite IH by lia. f_equal. lia.
+Qed.
+
+Lemma walk_all fuel : 0 < tot -> (N.to_nat tot <= fuel)%nat ->
+  walk fuel (start (B 0 0)) = seg_map (mk 0 0).
+Proof.
+  intros H F. unfold start. rewrite B_with.
+  assert (E : inf_index_for_hf (mk 0 0) 0 = 0).
+  { rewrite idx_mk. pose proof S'. unfold tot in H. bdestr; try reflexivity; lia. }
+  rewrite <- E at 1. rewrite walk_from by (try exact H; lia). reflexivity.
+Qed.
+
+(** the oracle of the pointer table holds for the model's observation, at every pointer *)
+Lemma ptr_oracle_model ci ch :
+  ptr_oracle (mk 0 0) tot ci ch (obs_of (B ci ch)) = true.
+Proof.
+  unfold ptr_oracle, ptr_oracle_on. fold (seg_at (mk 0 0)).
+  destruct (N.leb_spec tot ch) as [H|H]; [reflexivity|].
+  change (nth_error (seg_map (mk 0 0)) (N.to_nat ?h)) with (seg_at (mk ci ch) h).
+  unfold obs_of. cbn [o_match o_last o_inc o_ci o_ch o_xover o_first].
+  rewrite match_spec, last_spec by exact H. rewrite !eqb_reflx. cbn [andb].
+  apply andb_true_iff; split.
+  - destruct (N.eqb_spec (ch + 1) tot) as [L|L].
+    + rewrite inc_last by exact L. cbn. rewrite !N.eqb_refl. reflexivity.
+    + rewrite inc_mid by lia. cbn [fst snd inc_code B decoded_base pm curr_inf curr_hf mk].
+      rewrite !N.eqb_refl. cbn [andb]. rewrite (seg_at_idx ci ch) by lia.
+      unfold opt_eqb, option_eqb. apply N.eqb_refl.
+  - destruct (opt_eqb (seg_at (mk ci ch) ch) (Some ci)) eqn:V; [|reflexivity]. cbn [negb orb].
+    assert (V' : seg_at (mk ci ch) ch = Some ci).
+    { unfold opt_eqb, option_eqb in V. destruct (seg_at (mk ci ch) ch); [|discriminate].
+      apply N.eqb_eq in V. now subst. }
+    rewrite xover_spec by exact H. rewrite first_spec by exact V'. now rewrite !eqb_reflx.
+Qed.
+
+End Shape.
+
+(** general form of the statements above, for any decoded meta header *)
+Lemma shape_ok_mk m : shape_ok m = shape_ok (mk (seg0 m) (seg1 m) (seg2 m) 0 0).
+Proof. reflexivity. Qed.
+
+(** ------------------------------------------------------------------
+    Reversal *)
+Lemma sub8_invol n x : x < 256 -> sub8 (sub8 n (sub8 (sub8 n x) 1)) 1 = x.
+Proof. unfold sub8. intros H. generalize (n mod 256). intros. lia. Qed.
+
+Lemma sub8_exact n x : x < n -> n < 256 -> sub8 (sub8 (u8 n) x) 1 = n - 1 - x.
+Proof. unfold sub8, u8. intros. lia. Qed.
+
+Lemma flip_flip i : flip (flip i) = i.
+Proof. destruct i; unfold flip; cbn. now rewrite negb_involutive. Qed.
+
+Lemma prefix_split {A} k (l l1 : list A) : length l1 = Nat.min k (length l) ->
+  firstn k (l1 ++ skipn k l) = l1 /\ skipn k (l1 ++ skipn k l) = skipn k l.
+Proof.
+  intros H. destruct (Nat.le_gt_cases k (length l)) as [L|L].
+  - assert (length l1 = k) by lia. split.
+    + rewrite firstn_app. replace (k - length l1)%nat with 0%nat by lia.
+      cbn [firstn]. rewrite app_nil_r. apply firstn_all2. lia.
+    + rewrite skipn_app. replace (k - length l1)%nat with 0%nat by lia.
+      cbn [skipn]. rewrite (skipn_all2 l1) by lia. reflexivity.
+  - rewrite (skipn_all2 l) by lia. rewrite app_nil_r. split.
+    + apply firstn_all2. lia.
+    + apply skipn_all2. lia.
+Qed.
+
+Lemma rev_prefix_invol {A} k (l : list A) : rev_prefix k (rev_prefix k l) = l.
+Proof.
+  unfold rev_prefix.
+  destruct (prefix_split k l (rev (firstn k l))) as [E1 E2].
+  { rewrite rev_length, firstn_length. reflexivity. }
+  rewrite E1, E2, rev_involutive. apply firstn_skipn.
+Qed.
+
+Lemma rev_prefix_length {A} k (l : list A) : length (rev_prefix k l) = length l.
+Proof.
+  unfold rev_prefix. rewrite app_length, rev_length. rewrite <- (firstn_skipn k l) at 3.
+  now rewrite app_length.
+Qed.
+
+Lemma rev_prefix_all {A} k (l : list A) : (length l <= k)%nat -> rev_prefix k l = rev l.
+Proof.
+  intros H. unfold rev_prefix. rewrite firstn_all2, skipn_all2 by lia. apply app_nil_r.
+Qed.
+
+Lemma map_prefix_invol {A} (f : A -> A) k (l : list A) : (forall x, f (f x) = x) ->
+  map_prefix f k (map_prefix f k l) = l.
+Proof.
+  intros Hf. unfold map_prefix.
+  destruct (prefix_split k l (map f (firstn k l))) as [E1 E2].
+  { rewrite map_length, firstn_length. reflexivity. }
+  rewrite E1, E2, map_map. rewrite (map_ext _ (fun x => x)) by exact Hf. rewrite map_id.
+  apply firstn_skipn.
+Qed.
+
+Lemma map_prefix_length {A} (f : A -> A) k (l : list A) : length (map_prefix f k l) = length l.
+Proof.
+  unfold map_prefix. rewrite app_length, map_length. rewrite <- (firstn_skipn k l) at 3.
+  now rewrite app_length.
+Qed.
+
+Lemma map_prefix_all {A} (f : A -> A) k (l : list A) : (length l <= k)%nat -> map_prefix f k l = map f l.
+Proof.
+  intros H. unfold map_prefix. rewrite firstn_all2, skipn_all2 by lia. apply app_nil_r.
+Qed.
+
+Lemma swap_infos_cases n l :
+  n = 1 \/ n = 2 \/ n = 3 \/ swap_infos n l = None.
+Proof. destruct n as [|[[p|p|]|[p|p|]|]]; cbn; auto. Qed.
+
+(** swapping, flipping, swapping and flipping again gives the list back *)
+Lemma swap_flip_invol n l l1 : swap_infos n l = Some l1 ->
+  swap_infos n (map_prefix flip (N.to_nat n) l1) = Some (map_prefix flip (N.to_nat n) l) /\
+  (forall l2, swap_infos n (map_prefix flip (N.to_nat n) l1) = Some l2 ->
+              map_prefix flip (N.to_nat n) l2 = l).
+Proof.
+  destruct (swap_infos_cases n l) as [ -> | [ -> | [ -> | -> ]]]; cbn [swap_infos]; try discriminate;
+    change (N.to_nat 1) with 1%nat; change (N.to_nat 2) with 2%nat; change (N.to_nat 3) with 3%nat.
+  - destruct l as [|x r]; try discriminate. intros E; inversion E; subst.
+    cbn. split; [reflexivity|]. intros l2 E2; inversion E2; subst. cbn. now rewrite !flip_flip.
+  - destruct l as [|x [|y r]]; try discriminate. intros E; inversion E; subst.
+    cbn. split; [reflexivity|]. intros l2 E2; inversion E2; subst. cbn. now rewrite !flip_flip.
+  - destruct l as [|x [|y [|z r]]]; try discriminate. intros E; inversion E; subst.
+    cbn. split; [reflexivity|]. intros l2 E2; inversion E2; subst. cbn. now rewrite !flip_flip.
+Qed.
+
+Lemma swap_seglen_invol n m ci ch :
+  with_ptrs (swap_seglen n (with_ptrs (swap_seglen n m) ci ch)) (curr_inf m) (curr_hf m) = m.
+Proof. destruct m; destruct n as [|[[p|p|]|[p|p|]|]]; reflexivity. Qed.
+
+Lemma swap_infos_length n l l1 : swap_infos n l = Some l1 -> length l1 = length l /\ (N.to_nat n <= length l)%nat /\ 1 <= n <= 3.
+Proof.
+  destruct (swap_infos_cases n l) as [ -> | [ -> | [ -> | -> ]]]; cbn [swap_infos]; try discriminate.
+  - destruct l as [|x r]; try discriminate. intros E; inversion E; cbn; lia.
+  - destruct l as [|x [|y r]]; try discriminate. intros E; inversion E; cbn; lia.
+  - destruct l as [|x [|y [|z r]]]; try discriminate. intros E; inversion E; cbn; lia.
+Qed.
+
+(** [Decoded.Reverse] is an involution on everything it accepts (uint8 pointer values, no
+    assumption that they are in range) *)
+Lemma reverse_decoded_invol p q : wf_u8 (pm (pbase p)) ->
+  reverse_decoded p = Ok q -> reverse_decoded q = Ok p.
+Proof.
+  intros (W1 & W2 & _) R. unfold reverse_decoded in R.
+  destruct p as [[m ninf nh] is hs]. cbn [pbase pm num_inf num_hops infos hops] in *.
+  destruct (ninf =? 0) eqn:E0; [discriminate|].
+  destruct (swap_infos ninf is) as [is1|] eqn:ES; [|discriminate].
+  destruct ((2 <=? nh) && (N.of_nat (length hs) <? nh)) eqn:EH; [discriminate|].
+  inversion R; subst q; clear R.
+  unfold reverse_decoded. cbn [pbase pm num_inf num_hops infos hops]. rewrite E0.
+  destruct (swap_flip_invol _ _ _ ES) as [F1 F2]. rewrite F1.
+  rewrite rev_prefix_length, EH. f_equal.
+  cbn [with_ptrs curr_inf curr_hf].
+  rewrite !sub8_invol by assumption.
+  rewrite rev_prefix_invol. rewrite (F2 _ F1).
+  f_equal. f_equal.
+  destruct m; destruct ninf as [|[[p|p|]|[p|p|]|]]; reflexivity.
+Qed.
+
+Lemma reverse_decoded_ok_iff p : wf_path p ->
+  (exists q, reverse_decoded p = Ok q) <-> num_inf (pbase p) <> 0.
+Proof.
+  intros (W1 & W2 & W3). unfold reverse_decoded.
+  destruct (N.eqb_spec (num_inf (pbase p)) 0) as [E|E].
+  - split; [intros [q H]; discriminate | contradiction].
+  - split; [intros _; exact E|intros _].
+    assert (X : exists l, swap_infos (num_inf (pbase p)) (infos p) = Some l).
+    { rewrite W1 in *. destruct (infos p) as [|x [|y [|z [|u r]]]]; cbn in *; try lia; eauto. }
+    destruct X as [l ->].
+    replace (N.of_nat (length (hops p)) <? num_hops (pbase p)) with false by lia.
+    rewrite andb_false_r. eauto.
+Qed.
+
+(** on a path with consistent lengths and pointers in range, [Decoded.Reverse] is the mirror image *)
+Lemma reverse_decoded_spec p : wf_path p -> num_hops (pbase p) < 256 ->
+  ptrs_in_range p = true -> reverse_decoded p = Ok (spec_reverse p).
+Proof.
+  intros (W1 & W2 & W3) W4 PR. unfold ptrs_in_range in PR. apply andb_true_iff in PR as [P1 P2].
+  apply N.ltb_lt in P1, P2.
+  destruct p as [[m ninf nh] is hs]. cbn [pbase pm num_inf num_hops infos hops] in *.
+  unfold reverse_decoded, spec_reverse. cbn [pbase pm num_inf num_hops infos hops].
+  destruct (N.eqb_spec ninf 0); [lia|].
+  replace (N.of_nat (length hs) <? nh) with false by lia. rewrite andb_false_r.
+  rewrite !sub8_exact by lia.
+  rewrite rev_prefix_all by lia.
+  destruct is as [|x [|y [|z [|u r]]]]; cbn [length] in W1; try lia; subst ninf;
+    cbn; destruct m; reflexivity.
+Qed.
+
+(** [Decoded.Reverse] on a path with consistent lengths, any uint8 pointers *)
+Definition rev_ptr (n x : N) : N := sub8 (sub8 (u8 n) x) 1.
+
+Definition reversed (p : path) : path :=
+  let b := pbase p in let m := pm b in
+  {| pbase := {| pm := with_ptrs (swap_seglen (num_inf b) m) (rev_ptr (num_inf b) (curr_inf m))
+                                 (rev_ptr (num_hops b) (curr_hf m));
+                 num_inf := num_inf b; num_hops := num_hops b |};
+     infos := map flip (rev (infos p)); hops := rev (hops p) |}.
+
+Lemma reverse_decoded_wf p : wf_path p -> num_inf (pbase p) <> 0 -> reverse_decoded p = Ok (reversed p).
+Proof.
+  intros (W1 & W2 & W3) NZ.
+  destruct p as [[m ninf nh] is hs]. cbn [pbase pm num_inf num_hops infos hops] in *.
+  unfold reverse_decoded, reversed, rev_ptr. cbn [pbase pm num_inf num_hops infos hops].
+  destruct (N.eqb_spec ninf 0); [contradiction|].
+  replace (N.of_nat (length hs) <? nh) with false by lia. rewrite andb_false_r.
+  rewrite rev_prefix_all by lia.
+  destruct is as [|x [|y [|z [|u r]]]]; cbn [length] in W1; try lia; subst ninf; reflexivity.
+Qed.
+
+(** ------------------------------------------------------------------
+    Raw <-> Decoded *)
+Definition trunc (m : meta) : meta :=
+  {| curr_inf := curr_inf m mod 4; curr_hf := curr_hf m mod 64;
+     seg0 := seg0 m mod 64; seg1 := seg1 m mod 64; seg2 := seg2 m mod 64 |}.
+
+Lemma trunc_wf m : wf_meta (trunc m).
+Proof. unfold wf_meta, trunc; cbn. repeat split; apply N.mod_lt; discriminate. Qed.
+
+Lemma trunc_id m : wf_meta m -> trunc m = m.
+Proof.
+  destruct m. unfold wf_meta, trunc; cbn. intros (?&?&?&?&?).
+  rewrite !N.mod_small by assumption. reflexivity.
+Qed.
+
+Lemma meta_decode_encode_trunc m : meta_decode (meta_encode m) = trunc m.
+Proof.
+  assert (E : meta_encode m = meta_encode (trunc m)).
+  { rewrite !meta_encode_trunc. unfold trunc; cbn [curr_inf curr_hf seg0 seg1 seg2].
+    now rewrite !N.mod_mod by discriminate. }
+  rewrite E. apply meta_decode_encode, trunc_wf.
+Qed.
+
+Definition canonical (p : path) : Prop :=
+  wf_path p /\ wf_meta (pm (pbase p)) /\ shape_ok (pm (pbase p)) = true /\
+  pbase p = decoded_base (pm (pbase p)).
+
+Lemma firstn_exact {A} (l : list A) n : n = N.of_nat (length l) -> firstn (N.to_nat n) l = l.
+Proof. intros ->. rewrite Nat2N.id. apply firstn_all. Qed.
+
+(** serializing a path whose base is consistent with its meta header and decoding it as Raw:
+    the same path with the pointers truncated to their field widths *)
+Lemma to_raw_trunc p :
+  wf_path p -> pbase p = decoded_base (pm (pbase p)) -> shape_ok (pm (pbase p)) = true ->
+  seg0 (pm (pbase p)) < 64 -> seg1 (pm (pbase p)) < 64 -> seg2 (pm (pbase p)) < 64 ->
+  to_raw p = Some {| pbase := decoded_base (trunc (pm (pbase p))); infos := infos p; hops := hops p |}.
+Proof.
+  intros (W1 & W2 & W3) EB SH L0 L1 L2. unfold to_raw.
+  rewrite W1, W2, !N.eqb_refl. cbn [andb]. unfold path_decode.
+  rewrite meta_decode_encode_trunc, base_decode_spec.
+  assert (ES : shape_ok (trunc (pm (pbase p))) = shape_ok (pm (pbase p))).
+  { unfold shape_ok, trunc; cbn [seg0 seg1 seg2]. now rewrite !N.mod_small by assumption. }
+  rewrite ES, SH.
+  assert (EL : base_len (decoded_base (trunc (pm (pbase p)))) = base_len (pbase p)).
+  { rewrite EB at 2. unfold base_len, decoded_base, count_nonzero, trunc; cbn [num_inf num_hops seg0 seg1 seg2].
+    now rewrite !N.mod_small by assumption. }
+  rewrite EL, N.ltb_irrefl.
+  assert (E1 : num_inf (decoded_base (trunc (pm (pbase p)))) = N.of_nat (length (infos p))).
+  { rewrite <- W1. rewrite EB at 2. unfold decoded_base, count_nonzero, trunc; cbn [num_inf seg0 seg1 seg2].
+    now rewrite !N.mod_small by assumption. }
+  assert (E2 : num_hops (decoded_base (trunc (pm (pbase p)))) = N.of_nat (length (hops p))).
+  { rewrite <- W2. rewrite EB at 2. unfold decoded_base, trunc; cbn [num_hops seg0 seg1 seg2].
+    now rewrite !N.mod_small by assumption. }
+  rewrite (firstn_exact _ _ E1), (firstn_exact _ _ E2). reflexivity.
+Qed.
+
+Lemma to_raw_canonical p : canonical p -> to_raw p = Some p.
+Proof.
+  intros (W & WM & SH & EB). pose proof WM as (?&?&?&?&?).
+  rewrite to_raw_trunc by assumption. rewrite trunc_id by exact WM. rewrite <- EB.
+  destruct p; reflexivity.
+Qed.
+
+Lemma path_decode_canonical w datalen is hs p : w < 2 ^ 32 ->
+  path_decode w datalen is hs = Some p ->
+  num_inf (pbase p) <= N.of_nat (length is) -> num_hops (pbase p) <= N.of_nat (length hs) ->
+  canonical p.
+Proof.
+  intros Hw D. pose proof (meta_decode_wf w Hw) as WM. unfold path_decode in D.
+  set (m := meta_decode w) in *. clearbody m. rewrite base_decode_spec in D.
+  destruct (shape_ok m) eqn:SH; [|discriminate].
+  destruct (datalen <? base_len (decoded_base m)); [discriminate|].
+  inversion D; subst p; clear D. unfold decoded_base. cbn [pbase infos hops num_inf num_hops pm]. intros L1 L2.
+  unfold canonical, wf_path, decoded_base. cbn [pbase infos hops num_inf num_hops pm].
+  destruct WM as (?&?&?&?&?).
+  rewrite !firstn_length. repeat split; try lia; try assumption.
+  unfold count_nonzero. bdestr; lia.
+Qed.
+
+(** the segment lengths swapped by Reverse still form an accepted shape *)
+Lemma swap_shape m : shape_ok m = true ->
+  let m' := swap_seglen (count_nonzero m) m in
+  shape_ok m' = true /\ count_nonzero m' = count_nonzero m /\
+  seg0 m' + seg1 m' + seg2 m' = seg0 m + seg1 m + seg2 m /\
+  (seg0 m < 64 -> seg1 m < 64 -> seg2 m < 64 -> seg0 m' < 64 /\ seg1 m' < 64 /\ seg2 m' < 64).
+Proof.
+  intros SH. apply shape_ok_prop in SH. destruct m as [ci ch x y z]. cbn [seg0 seg1 seg2] in SH.
+  unfold count_nonzero; cbn [seg0 seg1 seg2].
+  destruct (N.eqb_spec x 0), (N.eqb_spec y 0), (N.eqb_spec z 0); cbn -[N.leb]; try lia;
+    rewrite shape_ok_prop; cbn [seg0 seg1 seg2]; bdestr; lia.
+Qed.
+
+Lemma forall_range n (f : N -> bool) :
+  forallb f (map N.of_nat (seq 0 n)) = true -> forall k, k < N.of_nat n -> f k = true.
+Proof.
+  intros H k Hk. rewrite forallb_forall in H. apply H.
+  apply in_map_iff. exists (N.to_nat k). split; [apply N2Nat.id|]. apply in_seq. lia.
+Qed.
+
+Lemma rev_ptr_u8 n x : rev_ptr n x = rev_ptr (n mod 256) x.
+Proof. unfold rev_ptr, u8. now rewrite N.mod_mod by discriminate. Qed.
+
+(** after the truncation of the pointers by serialization, reversing twice still restores them
+    (checked on all 256 x 4 and 256 x 64 values) *)
+Lemma rev_ptr_mod4 n x : x < 4 -> rev_ptr n (rev_ptr n x mod 4) mod 4 = x.
+Proof.
+  intros H. rewrite (rev_ptr_u8 n), (rev_ptr_u8 n x).
+  assert (K : n mod 256 < 256) by (apply N.mod_lt; discriminate). revert K. generalize (n mod 256). intros k K.
+  apply N.eqb_eq. revert x H.
+  change (forall x, x < N.of_nat 4 -> (fun x => rev_ptr k (rev_ptr k x mod 4) mod 4 =? x) x = true).
+  apply forall_range. revert k K.
+  change (forall k, k < N.of_nat 256 ->
+    (fun k => forallb (fun x => rev_ptr k (rev_ptr k x mod 4) mod 4 =? x) (map N.of_nat (seq 0 4))) k = true).
+  apply forall_range. vm_compute. reflexivity.
+Qed.
+
+Lemma rev_ptr_mod64 n x : x < 64 -> rev_ptr n (rev_ptr n x mod 64) mod 64 = x.
+Proof.
+  intros H. rewrite (rev_ptr_u8 n), (rev_ptr_u8 n x).
+  assert (K : n mod 256 < 256) by (apply N.mod_lt; discriminate). revert K. generalize (n mod 256). intros k K.
+  apply N.eqb_eq. revert x H.
+  change (forall x, x < N.of_nat 64 -> (fun x => rev_ptr k (rev_ptr k x mod 64) mod 64 =? x) x = true).
+  apply forall_range. revert k K.
+  change (forall k, k < N.of_nat 256 ->
+    (fun k => forallb (fun x => rev_ptr k (rev_ptr k x mod 64) mod 64 =? x) (map N.of_nat (seq 0 64))) k = true).
+  apply forall_range. vm_compute. reflexivity.
+Qed.
+
+Lemma trunc_small m : seg0 m < 64 -> seg1 m < 64 -> seg2 m < 64 ->
+  trunc m = with_ptrs m (curr_inf m mod 4) (curr_hf m mod 64).
+Proof.
+  intros. unfold trunc, with_ptrs.
+  now rewrite (N.mod_small (seg0 m)), (N.mod_small (seg1 m)), (N.mod_small (seg2 m)) by assumption.
+Qed.
+
+(** [Raw.Reverse] on a path as [Raw.DecodeFromBytes] delivers it *)
+Definition rr (p : path) : path :=
+  let b := pbase p in let m := pm b in
+  {| pbase := decoded_base (with_ptrs (swap_seglen (num_inf b) m)
+                                      (rev_ptr (num_inf b) (curr_inf m) mod 4)
+                                      (rev_ptr (num_hops b) (curr_hf m) mod 64));
+     infos := map flip (rev (infos p)); hops := rev (hops p) |}.
+
+Lemma reverse_raw_canonical p : canonical p -> num_inf (pbase p) <> 0 ->
+  reverse_raw p = Ok (rr p) /\ canonical (rr p) /\
+  num_inf (pbase (rr p)) = num_inf (pbase p) /\ num_hops (pbase (rr p)) = num_hops (pbase p).
+Proof.
+  intros C NZ. pose proof C as (W & WM & SH & EB). pose proof W as (W1 & W2 & W3).
+  pose proof WM as (M1 & M2 & M3 & M4 & M5).
+  unfold reverse_raw, to_decoded. rewrite (to_raw_canonical p C). rewrite (reverse_decoded_wf p W NZ).
+  set (m := pm (pbase p)) in *.
+  assert (EN : num_inf (pbase p) = count_nonzero m) by (rewrite EB; reflexivity).
+  assert (EH : num_hops (pbase p) = seg0 m + seg1 m + seg2 m) by (rewrite EB; reflexivity).
+  destruct (swap_shape m SH) as (S1 & S2 & S3 & S4). cbv zeta in S1, S2, S3, S4.
+  destruct (S4 M3 M4 M5) as (L0 & L1 & L2). rewrite <- EN in *.
+  set (m' := swap_seglen (num_inf (pbase p)) m) in *.
+  assert (WR : wf_path (reversed p)).
+  { unfold wf_path, reversed. cbn [pbase infos hops num_inf num_hops]. rewrite map_length, !rev_length. tauto. }
+  assert (ER : pbase (reversed p) = decoded_base (pm (pbase (reversed p)))).
+  { unfold reversed, decoded_base. cbn [pbase pm]. fold m. fold m'.
+    change (count_nonzero (with_ptrs m' ?x ?y)) with (count_nonzero m').
+    cbn [with_ptrs seg0 seg1 seg2]. rewrite S2, S3, <- EH. reflexivity. }
+  assert (SHR : shape_ok (pm (pbase (reversed p))) = true) by exact S1.
+  assert (K0 : seg0 (pm (pbase (reversed p))) < 64) by exact L0.
+  assert (K1 : seg1 (pm (pbase (reversed p))) < 64) by exact L1.
+  assert (K2 : seg2 (pm (pbase (reversed p))) < 64) by exact L2.
+  rewrite (to_raw_trunc _ WR ER SHR K0 K1 K2).
+  rewrite (trunc_small _ K0 K1 K2).
+  assert (E : {| pbase := decoded_base (with_ptrs (pm (pbase (reversed p)))
+                                         (curr_inf (pm (pbase (reversed p))) mod 4)
+                                         (curr_hf (pm (pbase (reversed p))) mod 64));
+                 infos := infos (reversed p); hops := hops (reversed p) |} = rr p).
+  { unfold rr, reversed. cbn [pbase pm infos hops with_ptrs curr_inf curr_hf seg0 seg1 seg2]. reflexivity. }
+  rewrite E. split; [reflexivity|].
+  assert (N1 : num_inf (pbase (rr p)) = num_inf (pbase p)).
+  { unfold rr, decoded_base. cbn [pbase num_inf]. fold m. fold m'.
+    change (count_nonzero (with_ptrs m' ?x ?y)) with (count_nonzero m'). exact S2. }
+  assert (N2 : num_hops (pbase (rr p)) = num_hops (pbase p)).
+  { unfold rr, decoded_base. cbn [pbase num_hops with_ptrs seg0 seg1 seg2]. fold m. fold m'. lia. }
+  split; [|split; assumption].
+  unfold canonical, wf_path. rewrite N1, N2. unfold rr at 1 2 3.
+  cbn [infos hops]. rewrite map_length, !rev_length.
+  repeat split; try assumption.
+  - unfold rr. cbn [pbase pm decoded_base with_ptrs curr_inf]. apply N.mod_lt. discriminate.
+  - unfold rr. cbn [pbase pm decoded_base with_ptrs curr_hf]. apply N.mod_lt. discriminate.
+Qed.
+
+Lemma swap_swap n m : swap_seglen n (swap_seglen n m) = m.
+Proof. destruct m; destruct n as [|[[p|p|]|[p|p|]|]]; reflexivity. Qed.
+
+Lemma swap_with n m x y : swap_seglen n (with_ptrs m x y) = with_ptrs (swap_seglen n m) x y.
+Proof. destruct m; destruct n as [|[[p|p|]|[p|p|]|]]; reflexivity. Qed.
+
+Lemma with_with m x y u v : with_ptrs (with_ptrs m x y) u v = with_ptrs m u v.
+Proof. reflexivity. Qed.
+
+Lemma with_same m : with_ptrs m (curr_inf m) (curr_hf m) = m.
+Proof. destruct m; reflexivity. Qed.
+
+Lemma rr_rr p : canonical p -> num_inf (pbase p) <> 0 -> rr (rr p) = p.
+Proof.
+  intros C NZ. destruct (reverse_raw_canonical p C NZ) as (_ & _ & N1 & N2).
+  pose proof C as (W & WM & SH & EB). destruct WM as (M1 & M2 & _).
+  unfold rr at 1. rewrite N1, N2.
+  assert (PM : pm (pbase (rr p)) =
+               with_ptrs (swap_seglen (num_inf (pbase p)) (pm (pbase p)))
+                         (rev_ptr (num_inf (pbase p)) (curr_inf (pm (pbase p))) mod 4)
+                         (rev_ptr (num_hops (pbase p)) (curr_hf (pm (pbase p))) mod 64)) by reflexivity.
+  assert (IS : infos (rr p) = map flip (rev (infos p))) by reflexivity.
+  assert (HS : hops (rr p) = rev (hops p)) by reflexivity.
+  rewrite PM, IS, HS. cbn [with_ptrs curr_inf curr_hf].
+  rewrite swap_with, swap_swap. cbn [with_ptrs curr_inf curr_hf].
+  rewrite rev_ptr_mod4, rev_ptr_mod64 by assumption.
+  rewrite <- !map_rev, !rev_involutive, map_map.
+  rewrite (map_ext _ (fun x => x)) by apply flip_flip. rewrite map_id.
+  rewrite with_with.
+  rewrite with_same, <- EB. destruct p; reflexivity.
+Qed.
+
+(** reversing a Raw path twice restores it, whatever the pointers *)
+Lemma reverse_raw_invol p : canonical p -> num_inf (pbase p) <> 0 ->
+  exists r, reverse_raw p = Ok r /\ reverse_raw r = Ok p.
+Proof.
+  intros C NZ. destruct (reverse_raw_canonical p C NZ) as (R1 & C1 & N1 & N2).
+  exists (rr p). split; [exact R1|].
+  destruct (reverse_raw_canonical (rr p) C1) as (R2 & _); [now rewrite N1|].
+  rewrite R2. now rewrite rr_rr.
+Qed.
+
+(** pointers in range: Raw and Decoded reversal give the very same path *)
+Lemma rev_ptr_exact n x k : x < n -> n <= k -> k <= 64 -> rev_ptr n x mod k = n - 1 - x.
+Proof.
+  intros H1 H2 H3. unfold rev_ptr. rewrite sub8_exact by lia. apply N.mod_small. lia.
+Qed.
+
+Lemma rr_reversed p : canonical p -> ptrs_in_range p = true -> rr p = spec_reverse p.
+Proof.
+  intros C PR. pose proof C as (W & WM & SH & EB). pose proof W as (W1 & W2 & W3).
+  unfold ptrs_in_range in PR. apply andb_true_iff in PR as [P1 P2]. apply N.ltb_lt in P1, P2.
+  assert (HL : num_hops (pbase p) <= 64).
+  { rewrite EB. cbn [decoded_base num_hops]. apply shape_ok_prop in SH. lia. }
+  unfold rr, spec_reverse.
+  rewrite (rev_ptr_exact _ _ 4), (rev_ptr_exact _ _ 64) by lia.
+  f_equal.
+  destruct p as [b is hs]. cbn [pbase] in *. clear W W1 W2 C.
+  destruct (pm b) as [ci ch x y z] eqn:EM. subst b.
+  unfold decoded_base, count_nonzero in *. cbn [pm num_inf num_hops seg0 seg1 seg2 curr_inf curr_hf] in *.
+  apply shape_ok_prop in SH. cbn [seg0 seg1 seg2] in SH. clear EM.
+  destruct (N.eqb_spec x 0), (N.eqb_spec y 0), (N.eqb_spec z 0); cbn in P1 |- *; try lia;
+    (f_equal; first [lia | bdestr; lia | f_equal; lia]).
+Qed.
+
+(** ------------------------------------------------------------------
+    The oracles of [check] hold on the model *)
+Lemma list_eqb_refl {A} (e : A -> A -> bool) : (forall x, e x x = true) -> forall l, list_eqb e l l = true.
+Proof. intros H. induction l as [|x t IH]; cbn; [reflexivity|]. now rewrite H, IH. Qed.
+
+Lemma meta_eqb_refl m : meta_eqb m m = true.
+Proof. unfold meta_eqb. now rewrite !N.eqb_refl. Qed.
+Lemma base_eqb_refl b : base_eqb b b = true.
+Proof. unfold base_eqb. now rewrite meta_eqb_refl, !N.eqb_refl. Qed.
+Lemma info_eqb_refl i : info_eqb i i = true.
+Proof. unfold info_eqb. now rewrite !eqb_reflx, !N.eqb_refl. Qed.
+Lemma path_eqb_refl p : path_eqb p p = true.
+Proof.
+  unfold path_eqb. rewrite base_eqb_refl, (list_eqb_refl _ info_eqb_refl), (list_eqb_refl _ N.eqb_refl).
+  reflexivity.
+Qed.
+Lemma res_eqb_refl r : res_eqb r r = true.
+Proof. destruct r; cbn; auto using path_eqb_refl. Qed.
+
+Lemma word_oracle_model w : w < 2 ^ 32 -> word_oracle w (word_obs w) = true.
+Proof.
+  intros H. unfold word_oracle, word_obs.
+  pose proof (meta_decode_fields w H) as F. cbv zeta in F.
+  pose proof (meta_decode_wf w H) as (W1 & W2 & W3 & W4 & W5).
+  pose proof (meta_encode_decode w H) as E.
+  rewrite <- F at 1. rewrite E. rewrite !N.eqb_refl.
+  repeat (apply andb_true_iff; split); try reflexivity; now apply N.ltb_lt.
+Qed.
+
+Lemma enc_oracle_model ci ch s0 s1 s2 :
+  enc_oracle ci ch s0 s1 s2
+    (meta_encode {| curr_inf := ci; curr_hf := ch; seg0 := s0; seg1 := s1; seg2 := s2 |}) = true.
+Proof. unfold enc_oracle. rewrite meta_encode_trunc. apply N.eqb_refl. Qed.
+
+Lemma acc_pack_spec m : acc_pack m = spec_acc_pack m.
+Proof. unfold acc_pack, spec_acc_pack. rewrite base_decode_spec. destruct (shape_ok m); reflexivity. Qed.
+
+Lemma acc_entries_spec s0 : acc_entries acc_pack s0 = acc_entries spec_acc_pack s0.
+Proof.
+  unfold acc_entries. apply flat_map_ext. intros s1. apply map_ext. intros s2. apply acc_pack_spec.
+Qed.
+
+Lemma forallb_combine_map {A B} (f : A -> B) (g : A * B -> bool) l :
+  forallb g (combine l (map f l)) = forallb (fun x => g (x, f x)) l.
+Proof. induction l as [|x t IH]; cbn; [reflexivity|]. now rewrite IH. Qed.
+
+(** the model's table of a shape *)
+Definition model_table (b : base) : list obs :=
+  map (fun pt => obs_of (base_with_ptrs b (fst pt) (snd pt))) ptrs.
+
+Lemma table_oracle_model m : shape_ok m = true ->
+  table_oracle m (seg0 m + seg1 m + seg2 m) (model_table (decoded_base m)) = true.
+Proof.
+  intros SH. unfold table_oracle, model_table. rewrite map_length, Nat.eqb_refl. cbn [andb].
+  rewrite (forallb_combine_map _ (fun po => ptr_oracle_on (seg_map m) _ (fst (fst po)) (snd (fst po)) (snd po))).
+  apply forallb_forall. intros [ci ch] _. cbn [fst snd].
+  destruct m as [ci0 ch0 x y z]. cbn [seg0 seg1 seg2].
+  exact (ptr_oracle_model x y z SH ci ch).
+Qed.
+
+Lemma table_agree_model b : table_agree b (model_table b) = true.
+Proof.
+  unfold table_agree, model_table. rewrite map_length, Nat.eqb_refl. cbn [andb].
+  rewrite (forallb_combine_map _ (fun po => obs_eqb (obs_of (base_with_ptrs b (fst (fst po)) (snd (fst po)))) (snd po))).
+  apply forallb_forall. intros pt _. cbn [fst snd].
+  unfold obs_eqb. now rewrite !eqb_reflx, !N.eqb_refl.
+Qed.
+
+Lemma rev_oracle_model p : wf_path p -> wf_u8 (pm (pbase p)) ->
+  rev_oracle p (reverse_decoded p) (twice reverse_decoded p) = true.
+Proof.
+  intros W U. unfold rev_oracle, twice.
+  destruct (N.eqb_spec (num_inf (pbase p)) 0) as [E|E].
+  - unfold reverse_decoded. rewrite E. reflexivity.
+  - rewrite (reverse_decoded_wf p W E). cbn [is_ok andb].
+    rewrite (reverse_decoded_invol p (reversed p) U (reverse_decoded_wf p W E)).
+    apply res_eqb_refl.
+Qed.
+
+Definition model_path_oracle (w datalen : N) (is : list info) (hs : list hop) : bool :=
+  let md := path_decode w datalen is hs in
+  match md with
+  | None => path_oracle None None Err Err Err Err None None
+  | Some d =>
+    path_oracle md md (reverse_decoded d) (twice reverse_decoded d) (reverse_raw d) (twice reverse_raw d)
+                (match reverse_decoded d with Ok d1 => to_raw d1 | _ => None end)
+                (match to_raw d with Some r => to_decoded r | None => None end)
+  end.
+
+Lemma path_oracle_canonical d : canonical d ->
+  path_oracle (Some d) (Some d) (reverse_decoded d) (twice reverse_decoded d) (reverse_raw d)
+              (twice reverse_raw d)
+              (match reverse_decoded d with Ok d1 => to_raw d1 | _ => None end)
+              (match to_raw d with Some r => to_decoded r | None => None end) = true.
+Proof.
+  intros C. pose proof C as (W & WM & SH & EB).
+  assert (U : wf_u8 (pm (pbase d))) by (destruct WM as (?&?&?&?&?); unfold wf_u8; lia).
+  unfold path_oracle. rewrite path_eqb_refl. cbn [andb].
+  unfold to_decoded. rewrite (to_raw_canonical d C), (to_raw_canonical d C).
+  unfold opath_eqb at 1, option_eqb. rewrite path_eqb_refl.
+  destruct (N.eqb_spec (num_inf (pbase d)) 0) as [E|E].
+  - unfold reverse_raw, to_decoded. rewrite (to_raw_canonical d C).
+    unfold reverse_decoded. rewrite E. reflexivity.
+  - destruct (reverse_raw_canonical d C E) as (R1 & C1 & N1 & N2).
+    pose proof (reverse_decoded_wf d W E) as D1.
+    assert (T : to_raw (reversed d) = Some (rr d)).
+    { unfold reverse_raw, to_decoded in R1. rewrite (to_raw_canonical d C), D1 in R1.
+      destruct (to_raw (reversed d)); [now inversion R1 | discriminate]. }
+    rewrite D1, R1, T. unfold opath_eqb, option_eqb. rewrite path_eqb_refl.
+    unfold twice. rewrite D1, R1.
+    rewrite (reverse_decoded_invol d (reversed d) U D1), res_eqb_refl.
+    destruct (reverse_raw_canonical (rr d) C1) as (R2 & _); [now rewrite N1|].
+    rewrite R2, (rr_rr d C E), res_eqb_refl. cbn [andb].
+    destruct (ptrs_in_range d) eqn:PR; [|reflexivity]. cbn [negb orb].
+    assert (HL : num_hops (pbase d) < 256).
+    { rewrite EB. cbn [decoded_base num_hops]. apply shape_ok_prop in SH. lia. }
+    pose proof (reverse_decoded_spec d W HL PR) as D2.
+    assert (D3 : reversed d = spec_reverse d) by congruence.
+    rewrite D3, (rr_reversed d C PR), !path_eqb_refl. reflexivity.
+Qed.
+
+Lemma model_path_oracle_true w datalen is hs : w < 2 ^ 32 ->
+  (forall d, path_decode w datalen is hs = Some d ->
+             num_inf (pbase d) <= N.of_nat (length is) /\ num_hops (pbase d) <= N.of_nat (length hs)) ->
+  model_path_oracle w datalen is hs = true.
+Proof.
+  intros Hw L. unfold model_path_oracle.
+  destruct (path_decode w datalen is hs) as [d|] eqn:D; [|reflexivity].
+  destruct (L d eq_refl) as [L1 L2].
+  apply path_oracle_canonical. exact (path_decode_canonical w datalen is hs d Hw D L1 L2).
+Qed.
+
+Lemma nth_error_rev' {A} (l : list A) n : (n < length l)%nat ->
+  nth_error (rev l) n = nth_error l (length l - S n).
+Proof.
+  intros H. destruct l as [|d t] eqn:E; [cbn in H; lia|]. rewrite <- E in *.
+  rewrite (nth_error_nth' (rev l) d) by (rewrite rev_length; exact H).
+  rewrite (nth_error_nth' l d) by lia. f_equal. now apply rev_nth.
+Qed.
